@@ -944,7 +944,7 @@ func genCrudPlan(r *rand.Rand, quick bool) *plan.Plan {
 	if !quick {
 		nOps = 20 + r.IntN(100)
 	}
-	inc := plan.Incarnation{Boot: "full", SchedSeed: r.Uint64() | 1}
+	inc := plan.Incarnation{Boot: "full", SchedSeed: r.Uint64()>>11 | 1}
 	main := &crudGen{r: r, m: m, prefix: "M", orgs: orgs, stores: stores, vt: map[string]bool{}}
 	emit := func(c cop) { inc.Ops = append(inc.Ops, crudPlanOp(c)) }
 	restarts := 0
@@ -991,7 +991,7 @@ func genCrudPlan(r *rand.Rand, quick bool) *plan.Plan {
 				inc.Ops = append(inc.Ops, plan.Op{Kind: "shutdown"}) // graceful; otherwise the process is killed
 			}
 			p.Incs = append(p.Incs, inc)
-			inc = plan.Incarnation{Boot: "full", SchedSeed: r.Uint64() | 1}
+			inc = plan.Incarnation{Boot: "full", SchedSeed: r.Uint64()>>11 | 1}
 			for _, c := range main.sweep(orgs, stores) {
 				emit(c)
 			}
